@@ -8,6 +8,15 @@ pattern sources (which mdsort does not keep) filled in from `patterns`, the list
 
 ATOMS = 6   # header X-0 .. X-5 carry the truth value "1"/"0"
 
+# Programs of `command` conditions.  `true` / `false` are real; a name `vstatus:...` is an injected outcome of the unit harness
+# (harness/unit/h_expr.c: the real exec() of util.c forks and waits, the child ends as the name says; the model's command oracle maps
+# the same outcome through Model.execStatus): exit statuses around the boundaries of exec()'s mapping (0, 1, 126 | 127 | 128, 129, 200,
+# 255), death by a signal, and - as error sources - a program that cannot be executed, exit 127, fork / waitpid failing.
+COMMANDS_OK = ['true', 'false', 'true', 'false', 'vstatus:exit:0', 'vstatus:exit:1', 'vstatus:exit:126', 'vstatus:exit:128',
+               'vstatus:exit:129', 'vstatus:exit:200', 'vstatus:exit:255', 'vstatus:signal:15', 'vstatus:signal:9', 'vstatus:signal:11']
+COMMANDS_ERR = COMMANDS_OK + ['/nonexistent/cmd', '/nonexistent/cmd', 'vstatus:exit:127', 'vstatus:errno:EACCES', 'vstatus:errno:ENOENT',
+                              'vstatus:errno:ENOTDIR', 'vstatus:fork', 'vstatus:waitpid']
+
 
 class Gen:
     def __init__(self, rng, depth=2, rules_max=3, interp=True, attachments=True, errors=True, dates=True):
@@ -54,7 +63,7 @@ class Gen:
         if k < 0.80:
             return 'isdirectory "~/%s"' % r.choice(['yes', 'no'])
         if k < 0.86:
-            return 'command "%s"' % r.choice(['true', 'false', 'true', 'false', '/nonexistent/cmd'] if self.errors else ['true', 'false'])
+            return 'command "%s"' % r.choice(COMMANDS_ERR if self.errors else COMMANDS_OK)
         if k < 0.91 and self.dates:
             unit = r.choice(['seconds', 'sec', 'minutes', 'hours', 'days', 'w', 'mo', 'y'])
             cap = {'s': 100000, 'm': 100000, 'h': 100000, 'd': 40000, 'w': 7000, 'y': 136}[unit[0]] if unit != 'mo' else 1600
